@@ -292,6 +292,25 @@ def judge(sim, cfg, P, Q, script, r, desc):
     by_rule = any(f == "corrupt" and s == "T" and x for _i, f, s, _t, x in fired)
     if by_rule:
         sim.probe("rtox.corrupt_unrecoverable_by_rule")
+    # two faults that hit different protocol steps (a step = one request of the Initiator and the answer to it; the
+    # recovery of a fault is made of further steps): each step then suffers a single fault and must be recovered
+    steps = {}
+    n_req = 0
+    for (fidx, fsrc, _h, _n) in r["frames"]:
+        if fsrc == "I":
+            n_req += 1
+        steps[fidx] = n_req
+    # (not in conversations with timeout extensions: Target.send_timeout_extension() waits one second in all, which
+    # two recoveries at a long response waiting time can exceed)
+    two_steps = len(fired) == 2 and len(script) == 2 and not by_rule and not any(cfg.get("rtox", ())) and \
+        len(set(steps.get(i) for i, _f, _s, _t, _x in fired)) == 2
+    if two_steps:
+        sim.probe("pair.different_steps")
+        if not complete:
+            raise Violation("not-recovered", "two steps " + kinds,
+                            "conversation with one fault in each of two different protocol steps [%s] ended incomplete: initiator "
+                            "got %d/%d answers (%r), target got %d/%d payloads (%r); frames %r; %r"
+                            % (sdesc, len(r["I"]), len(Q), r["I.exc"], len(r["T"]), len(P), r["T.exc"], frames, desc), ov)
     if len(fired) <= 1 and len(script) <= 1 and not complete and not by_rule:
         raise Violation("not-recovered", kinds if fired else "fault-free",
                         "conversation with %s ended incomplete: initiator got %d/%d answers (%r), target got %d/%d payloads (%r); "
